@@ -253,6 +253,7 @@ func matchIDs(da *depend.DependAtom, ctxUse atom.UseFlagMap, pkgs []*pkgRec, byN
 
 type counter struct {
 	atoms, groups, compoundAlt, blockers, conds, depth int
+	emptyGroups, tied, misread                         int // r5: empty groups; files tied to their text; files the decoder read differently from the reference reading
 	byText map[string]map[string]bool // atom text -> the distinct match lists seen for it
 }
 
@@ -479,38 +480,72 @@ func Run(in Input) (c *common.Case) {
 	cnt := &counter{byText: map[string]map[string]bool{}}
 	badFiles := 0
 	pkgTerms := make([]string, len(pkgs))
+	textTerms := make([]string, len(pkgs))
+	misreads := []string{}
+	lenient := 0
 	for i, p := range pkgs {
 		ctxUse := p.av.GetUseFlagMap()
 		files := make([]string, 4)
+		texts := make([]string, 4)
 		for k := 0; k < 4; k++ {
 			if !p.in.HasDep[k] {
 				files[k] = "FNone"
+				texts[k] = q.None()
 				continue
 			}
 			var term string
+			texts[k] = q.None()
+			// the decoder under test (its answer is the tree only where the text is not PMS)
+			var realDeps []depend.PackageDependency
+			var realErr error
+			realPanic := false
 			func() {
 				defer func() {
 					if e := recover(); e != nil {
-						term = "FPanic"
+						realPanic = true
 					}
 				}()
-				deps, err := depend.DecodeDependencies([]byte(strings.TrimSpace(string(p.in.Dep[k]))))
-				if err != nil {
-					term = "FBad"
-					badFiles++
-					return
+				realDeps, realErr = depend.DecodeDependencies([]byte(strings.TrimSpace(string(p.in.Dep[k]))))
+			}()
+			if ref, ok := refParse(string(p.in.Dep[k])); ok {
+				// the PMS reading, tied to the text inside Coq (C05.texts_ok)
+				items := make([]string, len(ref))
+				for j, d := range ref {
+					items[j] = refTerm(d, ctxUse, pkgs, cnt, 1, false)
 				}
-				items := make([]string, len(deps))
-				for j, d := range deps {
+				term = q.App("FDeps", q.List(items))
+				texts[k] = q.Some(q.Hx(string(p.in.Dep[k])))
+				cnt.tied++
+				if realPanic || realErr != nil || realShape(realDeps) != refShape(ref) {
+					cnt.misread++
+					how := "other tree: " + realShape(realDeps)
+					if realPanic {
+						how = "panic"
+					} else if realErr != nil {
+						how = "error: " + realErr.Error()
+					}
+					misreads = append(misreads, fmt.Sprintf("%s/%s %s %q: reference %s, decoder %s", p.in.Cat, p.in.PF, depNames[k],
+						string(p.in.Dep[k]), refShape(ref), how))
+				}
+			} else if realPanic {
+				term = "FPanic"
+			} else if realErr != nil {
+				term = "FBad"
+				badFiles++
+			} else {
+				items := make([]string, len(realDeps))
+				for j, d := range realDeps {
 					items[j] = depTerm(d, ctxUse, pkgs, cnt, 1, false)
 				}
 				term = q.App("FDeps", q.List(items))
-			}()
+				lenient++
+			}
 			files[k] = term
 		}
 		pkgTerms[i] = q.App("MkPkg", q.Hx(string(p.in.Cat)), q.Hx(string(p.in.PF)), q.Hx(p.pn), q.Hx(p.slot),
 			optB(p.in.HasIuseEff, p.in.IuseEff), optB(p.in.HasIuse, p.in.Iuse), optB(p.in.HasUse, p.in.Use),
 			files[0], files[1], files[2], files[3])
+		textTerms[i] = q.List(texts)
 	}
 	// dictionary of requested atom strings: every "*x" / "-*x" payload of the tree and every user atom
 	dictKeys := []string{}
@@ -583,7 +618,7 @@ func Run(in Input) (c *common.Case) {
 
 	obsTerm := q.App("C05.MkObs", resTerm(sysRes), resTerm(stageRes), resTerm(binSys), resTerm(binStage), resTerm(binStage2))
 	c.Coq = q.App("C05.MkCase", q.Hx(root), q.List(fsTerms), q.Hx(profileDir), q.List(dict), q.HxList(atoms),
-		q.List(pkgTerms), q.List(enum), q.Bool(!in.NoBdeps), q.Bool(complete), obsTerm)
+		q.List(pkgTerms), q.List(enum), q.Bool(!in.NoBdeps), q.Bool(complete), q.List(textTerms), obsTerm)
 	desc["obs"] = map[string]interface{}{"system": sysRes, "stage": stageRes, "bin_system": binSys, "bin_stage": binStage, "bin_stage_reordered": binStage2}
 
 	// distinctness key: the input without the temporary directory
@@ -613,6 +648,16 @@ func Run(in Input) (c *common.Case) {
 	}
 	if badFiles > 0 {
 		classes = append(classes, "bad-dep-file")
+	}
+	if cnt.emptyGroups > 0 {
+		classes = append(classes, "empty-group")
+	}
+	if lenient > 0 {
+		classes = append(classes, "non-pms-text-accepted")
+	}
+	if cnt.misread > 0 { // the decoder under test did not read a PMS text as the grammar does
+		classes = append(classes, "decoder-misread")
+		desc["decoder_misreads"] = misreads
 	}
 	if len(atoms) > 0 {
 		classes = append(classes, "user-atoms")
